@@ -57,11 +57,19 @@ Proof.
   destruct (request_gate lower (u_policy u) (s_email s)); reflexivity.
 Qed.
 
+Lemma spec_flow_model cfg l : spec_flow re_match cfg l = flow_started re_match cfg l.
+Proof.
+  unfold spec_flow, flow_started. rewrite spec_route_model.
+  destruct (spec_route re_match cfg (l_start l)) as [u|]; [|rewrite andb_false_r; reflexivity].
+  reflexivity.
+Qed.
+
 Lemma spec_login_model fixed cfg l :
   spec_login re_match lower (provider_slug fixed dflt) cfg l = fst (callback re_match lower fixed dflt cfg l).
 Proof.
-  unfold spec_login, callback. rewrite spec_route_model.
+  unfold spec_login, callback. rewrite spec_route_model, spec_flow_model.
   destruct (spec_route re_match cfg (l_host l)) as [u|]; [|reflexivity].
+  destruct (flow_started re_match cfg l); [|reflexivity]. cbn [andb].
   unfold callback_on. destruct (login_admit lower (u_policy u) (l_email l) (l_groups l)); reflexivity.
 Qed.
 
@@ -98,7 +106,7 @@ Proof.
     assert (Ha: accepted (handle re_match re_replace lower fixed dflt cfg q) = false).
     { apply handle_other_host with (s := s); [reflexivity|]. cbn [q_host q]. congruence. }
     apply user_only_when_accepted in Ha. cbn [project o_user]. rewrite Ha.
-    destruct (match r_target _ with Some t => backend_of bs t | None => None end); reflexivity.
+    destruct (match r_target _ with Some t => backend_of _ t | None => None end); reflexivity.
 Qed.
 
 (* what the correspondence executes is a run of the history machine *)
